@@ -36,6 +36,7 @@ func NewServerHandler(user *user.User, catLimiter,
 			serverMessages:   make(chan string, 10),
 			maprMessages:     make(chan string, 10),
 			ackCloseReceived: make(chan struct{}),
+			flushed:          make(chan struct{}),
 			user:             user,
 		},
 		catLimiter:  catLimiter,
